@@ -414,6 +414,8 @@ class StackNode:
     def job_parked_with_timeout(self):
         """True if the job thread is parked in a blocking wait whose time-out was > 0"""
         st = self.job_state
+        if st is not None and st.waiting_on is engine.SLEEP:
+            return True          # inside time.sleep() (a slow callback, a slow interface): a timed wait
         if st is not None and st.waiting_on is engine.HOLD:
             return True          # parked by the harness at a pre-emption point: says nothing about the code under test
         if st is None or st.finished or st.waiting_on is None:
